@@ -28,6 +28,8 @@ Init == c = [side |-> "init"] /\ done = FALSE
 Next == /\ ~done /\ done' = TRUE
         /\ c' \in ParseCfgs \cup WriteCfgs \cup SpliceCfgs
         /\ PrintT(ToJson([c |-> c', r |-> Result(c'),
+                          stack |-> IF c'.side = "write" THEN BuildUnparseStack(c'.ps, c'.app).stack
+                                    ELSE IF c'.side = "parse" THEN BuildParseStack(c'.ps, c'.app).stack ELSE <<>>,
                           applicable |-> IF c'.side = "parse" THEN Applicable(BuildParseStack(c'.ps, c'.app).stack) ELSE TRUE]))
 \* application order: the log of probes is the sub-sequence of probes of the effective stack, and each probe saw the
 \* layers left by everything before it
